@@ -745,11 +745,19 @@ def alignDirective (env : Env) (st : St) (line col : Nat) (args : List Arg) : Ou
               let off := (seg.base + seg.buf.length) % v.toNat
               if off = 0 then .ok (st, .ok)
               else
-                -- `has_remaining(new_len)` and the 256-byte chunk loop: one append of the padding
-                match segStep st.seg (.append (List.replicate (v.toNat - off) 0xBE)) with
-                | .ok (s', .diag e) => .ok (({ st with seg := s' }).push env line col (.dirApply "align" (.alignWrite e)), .err .fatal)
-                | .ok (s', _) => .ok ({ st with seg := s' }, .ok)
-                | .stop r => .stop r
+                -- `has_remaining(new_len)` is decided from the NUMBER `len - off` before any padding exists (the code
+                -- checks first and writes 256-byte chunks afterwards; `remaining()` may underflow = panic) …
+                match seg.remaining with
+                | none => .stop .panic
+                | some rem =>
+                  if v.toNat - off ≤ rem then
+                    -- … then the 256-byte chunk loop: one append of the padding
+                    match segStep st.seg (.append (List.replicate (v.toNat - off) 0xBE)) with
+                    | .ok (s', .diag e) => .ok (({ st with seg := s' }).push env line col (.dirApply "align" (.alignWrite e)), .err .fatal)
+                    | .ok (s', _) => .ok ({ st with seg := s' }, .ok)
+                    | .stop r => .stop r
+                  else
+                    .ok (st.push env line col (.dirApply "align" (.alignWrite (.overflow (v.toNat - off) rem))), .err .fatal)
             else .ok (st.push env line col (.dirApply "align" (.alignRange v)), .err .fatal)
           | _ => .ok (st.push env line col (.dirArgType "align" 0 .const a'.ty), .err .trivial)
       | .stop r => .stop r
